@@ -182,11 +182,14 @@ def run_check(pid: str, tier: str, seed: int) -> int:
     discharged: list[str] = []
     timings = {}
     lean_fail_detail = []
-    for m in lean_mods:
+    # obligations = every theorem of the registered contract modules and of the project-local lemma
+    # libraries they import (Spec.*, PyModel.*); Generated.* contains definitions only
+    oblig_mods = [m for m in leanbuild.closure(lean_mods) if not m.startswith("Generated")] if lean_mods else []
+    for m in oblig_mods:
         obligations += theorems_in(m)
     for m, r in res.items():
         timings[m] = {"seconds": round(r.seconds, 2), "cached": r.cached, "ok": r.ok}
-        if not r.ok and (m in lean_mods or m.startswith("Generated") or m.startswith("Spec") or m.startswith("Contracts")):
+        if not r.ok:
             if getattr(r, "timeout", False):
                 status["undecided"].append(f"{m}: Lean time-out")
             elif r.skipped:
@@ -194,7 +197,7 @@ def run_check(pid: str, tier: str, seed: int) -> int:
             else:
                 names = failed_obligations(r)
                 lean_fail_detail.append({"module": m, "obligations": names, "lean_output": r.output[:6000]})
-    ok_mods = [m for m in lean_mods if res[m].ok]
+    ok_mods = [m for m in oblig_mods if res[m].ok]
     thms_ok = [t for m in ok_mods for t in theorems_in(m)]
     ax = axioms_probe(ok_mods, thms_ok, work) if thms_ok else {}
     allowed = {"propext", "Classical.choice", "Quot.sound"}
@@ -280,6 +283,17 @@ def run_check(pid: str, tier: str, seed: int) -> int:
                 status["violations"].append(v)
     except Exception as e:  # noqa: BLE001
         status["broken"].append("bounded harness crashed: " + "".join(traceback.format_exception(type(e), e, e.__traceback__))[-900:])
+    # probes of assumed dependency contracts (never counted as proved; a failing probe means the Lean model's assumption is wrong)
+    probes = []
+    try:
+        for name in spec.get("probes", []):
+            r = getattr(B, "probe_" + name)(tier, seed)
+            probes.append(r)
+            if r["failures"]:
+                status["broken"].append(f"assumption probe {r['probe']} failed: {r['failures'][0]}")
+    except Exception as e:  # noqa: BLE001
+        status["broken"].append("assumption probe crashed: " + "".join(traceback.format_exception_only(type(e), e))[:400])
+    cov["assumption_probes"] = probes
     cov["bounded_parts"] = b_rows
     cov["evaluations"] = total_eval
     cov["distinct_nontrivial"] = total_nt
